@@ -198,6 +198,9 @@ MEM == Fam("mem",
        "  %c = cmpxchg weak volatile i32* %p, i32 %v, i32 7 syncscope(\"singlethread\") acq_rel acquire, align 4\n  store { i32, i1 } %c, { i32, i1 }* undef",
        "  %c = cmpxchg i32* %p, i32 %v, i32 7 seq_cst seq_cst, !foo !0\n  store { i32, i1 } %c, { i32, i1 }* undef",
        "  %c = cmpxchg i32* %p, i32 %v, i32 7 release monotonic\n  store { i32, i1 } %c, { i32, i1 }* undef",
+       "  %c = cmpxchg i32* %p, i32 %v, i32 7 seq_cst seq_cst, align 8",
+       "  %r = atomicrmw add i32* %p, i32 %v seq_cst, align 16",
+       "  %r = atomicrmw xchg i32* %p, i32 %v monotonic, align 8, !foo !0",
        "  %r = atomicrmw xchg i32* %p, i32 %v monotonic\n  store i32 %r, i32* undef",
        "  %r = atomicrmw add i32* %p, i32 %v acquire\n  store i32 %r, i32* undef",
        "  %r = atomicrmw sub i32* %p, i32 %v release\n  store i32 %r, i32* undef",
@@ -251,7 +254,9 @@ ARITH == Fam("arith",
        "%r = bitcast i32 %a to float\n  store float %r, float* undef", "%r = bitcast <4 x i32> %va to <2 x i64>\n  store <2 x i64> %r, <2 x i64>* undef", "%r = addrspacecast i8* %p to i8 addrspace(1)*\n  store i8 addrspace(1)* %r, i8 addrspace(1)** undef",
        "%r = ptrtoint i8* %p to i64, !foo !0\n  store i64 %r, i64* undef",
        "%r = select i1 %c, i32 %a, i32 %b\n  store i32 %r, i32* undef", "%r = select fast i1 %c, float %x, float %y\n  store float %r, float* undef", "%r = select <4 x i1> zeroinitializer, <4 x i32> %va, <4 x i32> %va\n  store <4 x i32> %r, <4 x i32>* undef",
-       "%r = freeze i32 %a\n  store i32 %r, i32* undef", "%r = freeze <4 x i32> %va\n  store <4 x i32> %r, <4 x i32>* undef",
+       "%r = freeze i32 %a\n  store i32 %r, i32* undef", "%r = freeze i32 %a, !foo !0", "%r = va_arg i8* %p, i32, !foo !0", "%r = fneg float %x, !foo !0", "%r = select i1 %c, i32 %a, i32 %b, !foo !0",
+       "%r = extractelement <4 x i32> %va, i32 1, !foo !0", "%r = insertvalue {i32, float} %agg, float %x, 1, !foo !0", "%r = icmp eq i32 %a, %b, !foo !0", "%r = fcmp oeq float %x, %y, !foo !0",
+       "%r = add i32 %a, %b, !foo !0", "%r = trunc i32 %a to i8, !foo !0", "%r = shufflevector <4 x i32> %va, <4 x i32> undef, <4 x i32> zeroinitializer, !foo !0", "%r = freeze <4 x i32> %va\n  store <4 x i32> %r, <4 x i32>* undef",
        "%r = extractelement <4 x i32> %va, i32 1\n  store i32 %r, i32* undef", "%r = extractelement <vscale x 2 x i32> %sa, i64 0\n  store i32 %r, i32* undef",
        "%r = insertelement <4 x i32> %va, i32 %a, i32 1\n  store <4 x i32> %r, <4 x i32>* undef", "%r = insertelement <4 x i32> undef, i32 %a, i64 0\n  store <4 x i32> %r, <4 x i32>* undef",
        "%r = shufflevector <4 x i32> %va, <4 x i32> undef, <4 x i32> <i32 0, i32 1, i32 2, i32 3>\n  store <4 x i32> %r, <4 x i32>* undef",
@@ -280,6 +285,8 @@ TERM == Fam("term",
        "  indirectbr i8* %p, [label %x, label %y]\nx:\n  ret i32 0\ny:\n  ret i32 1",
        "  indirectbr i8* blockaddress(@f, %x), [label %x]\nx:\n  ret i32 0",
        "  unreachable",
+       "  br label %x\nx:\n  %r = phi fast float [ 1.0, %entry ]\n  %s = phi nnan nsz <2 x float> [ zeroinitializer, %entry ]\n  store float %r, float* undef\n  ret i32 0",
+       "  br i1 %c, label %x, label %y\nx:\n  br label %y\ny:\n  %r = phi i32 [ %a, %entry ], [ 7, %x ], !foo !0\n  %q = phi i8* [ %p, %entry ], [ null, %x ]\n  ret i32 %r",
        "  callbr void asm \"\", \"r,X\"(i32 %a, i8* blockaddress(@f, %x))\n          to label %y [label %x]\nx:\n  ret i32 0\ny:\n  ret i32 1",
        "  invoke void @v()\n          to label %x unwind label %cs\nx:\n  ret i32 0\ncs:\n  %sw = catchswitch within none [label %cp] unwind to caller\ncp:\n  %pad = catchpad within %sw [i8* null, i32 64]\n  catchret from %pad to label %x",
        "  invoke void @v()\n          to label %x unwind label %cl\nx:\n  ret i32 0\ncl:\n  %pad = cleanuppad within none []\n  call void @v() [ \"funclet\"(token %pad) ]\n  cleanupret from %pad unwind to caller",
